@@ -20,7 +20,10 @@ PROPERTY = 'C13'
 # the component theorems of Props/C13Components.lean / C13Sites.lean / C13Codegen.lean are corollaries of the owners' theorems over the
 # REGENERATED models: regenerate every one of them here too, so that a change of a translated function (e.g. the division guard of the
 # constant folder) breaks the C13 obligation that rests on it and not only the owner's check
-GEN_MODULES = ['lexgen', 'literals', 'consteval', 'hashmap', 'pp', 'c10incl', 'declspec', 'casttable', 'templates', 'c14args']
+# (c10ifparse: C13_ifparse_nocrash / C13_ifline_nocrash; c14args: C13_args_nocrash; strjoin: C13_join_in_bounds; literals:
+#  C13_phases_in_bounds rests on Gen/LitReadersGen; hashmap: C13_hashmap_nocrash / C13_rehash_nocrash)
+GEN_MODULES = ['lexgen', 'literals', 'consteval', 'hashmap', 'pp', 'c10incl', 'c10ifparse', 'declspec', 'casttable', 'templates',
+               'c14args', 'strjoin']
 LEAN_TARGETS = ['ChibiVerif.Props.C13', 'ChibiVerif.Props.C13Components', 'ChibiVerif.Props.C13Sites', 'ChibiVerif.Props.C13Codegen',
                 'ChibiVerif.Findings.C13', 'ChibiVerif.Findings.C13Sites']
 PROPS_FILES = ['ChibiVerif/Props/C13.lean', 'ChibiVerif/Props/C13Components.lean', 'ChibiVerif/Props/C13Sites.lean',
@@ -33,7 +36,9 @@ TRUSTED_BASE = [
     'arbitrary byte lists with positions as indices; tied on every run by outcome equality (ok / message id + line) with '
     '`chibicc -cc1 -E` on directive-free byte noise through drv_c13',
     'the component models of the sibling properties imported read-only by Props/C13Components.lean and Props/C13Sites.lean '
-    '(Model/Lex, HashMap, Layout, Init, Literals, PP, CondIncl, PPExpr, IncludeSearch): their own ties are run by their owners\' '
+    '(Model/Lex, HashMap, Layout, Init, Literals, PP, CondIncl, PPExpr, IncludeSearch, IfParse, C14Args/C14Compose, StrJoin, and the '
+    'translated Gen/StrJoinGen, Gen/LitReadersGen, Gen/C10IfParseGen, Gen/C14ArgsGen, which this check regenerates from the snapshot '
+    'before the proofs are checked): their own ties are run by their owners\' '
     'checks, not here; the instrumented doubles of Model/C13Sites.lean are proved equal to the originals (lexLiteralI = lexLiteral '
     'for every byte list) and lexLiteralI is additionally run against `chibicc -cc1 -E` on generated literal texts (drv_c13 literal)',
     'gcov (gcc 12) on a --coverage build of the snapshot, used only to COUNT which error_tok/error_at/error call sites the seeds '
@@ -1155,7 +1160,13 @@ MANIFEST = {
     'level_note': 'Lean: the byte-level scanner model (read_file .. tokenize, Model/LexTotal) is total on every byte list and '
                   'answers ok or a diagnostic whose line lies in the file; per-component no-abort / located-diagnostic theorems on the '
                   'sibling models with every crash site of the C code an explicit outcome: hashmap, constant folder, lexer, macro '
-                  'expansion (object-like), driver, #include machine (corollaries of C17/C07/C19/C09/C14/C10); struct_decl/union_decl '
+                  'expansion (object-like), driver, #include machine (corollaries of C17/C07/C19/C09/C14/C10); collected from the '
+                  'siblings\' later results, over the regenerated translations: the #if token line -> tree parser never runs out of its '
+                  'bound and fails only with located diagnostics (C13_ifparse_nocrash, C13_ifline_nocrash from C10_ifparse_total), no argv '
+                  'reaches a NULL dereference in parse_args (C13_args_nocrash from C14_args_total), no memcpy of '
+                  'join_adjacent_string_literals leaves its allocation (C13_join_in_bounds from C11_join_bytes), no store of the three '
+                  'in-place phase loops of tokenize.c leaves the text (C13_phases_in_bounds from C11_translated_phases), rehash reaches '
+                  'no assert on any well-formed table (C13_rehash_nocrash from C17_rehash_spec); struct_decl/union_decl '
                   'division sites characterised exactly and never reached on any type description (with C08); get_struct_member; the '
                   'twelve mutually recursive functions of the initializer parser never index outside an initializer tree for every '
                   'type, token list and recursion budget; the literal readers never read behind the terminating NUL on any byte '
